@@ -217,6 +217,26 @@ def _pin():
     os.sched_setaffinity(0, {cpus[k % len(cpus)]})
   except (AttributeError, OSError, IndexError):
     pass
+  _limit_memory()
+
+
+def _limit_memory():
+  """A worker that runs away (an exploration of a tree whose executions do not terminate) must die with MemoryError - a
+  harness error - instead of taking the machine down: soft address-space limit per worker when VERIF_WORKER_MEM_GB is set
+  (tools/trymut.sh sets it for runs against changed trees; the registered commands run without it)."""
+  if not os.environ.get('VERIF_WORKER_MEM_GB'):
+    return
+  try:
+    import resource
+    gb = float(os.environ['VERIF_WORKER_MEM_GB'])
+    soft, hard = resource.getrlimit(resource.RLIMIT_AS)
+    want = int(gb * 2 ** 30)
+    if hard != resource.RLIM_INFINITY:
+      want = min(want, hard)
+    if soft == resource.RLIM_INFINITY or soft > want:
+      resource.setrlimit(resource.RLIMIT_AS, (want, hard))
+  except (ImportError, ValueError, OSError):
+    pass
 
 
 def pmap(fn, args, fresh=False, procs=None, chunksize=1):
